@@ -281,6 +281,10 @@ class Documentable:
             for o in below:
                 o.parentMod = new_parent
         self.name = new_name
+        if isinstance(self._linker, linker._EpydocLinker):
+            # The linker was created while the module was visited (default values of parameters keep it):
+            # it remembers the page of the old location, links must be shortened for the new one.
+            self._linker._page_object = self.page_object
         del old_parent.contents[old_name]
         old_parent._localNameToFullName_map[old_name] = self.fullName()
         new_parent.contents[new_name] = self
